@@ -41,7 +41,11 @@ SetSeq(S) == SetToSeq(S)
 Export == Set => PrintT(ToJson(
   CASE kind = "patch" -> [kind |-> kind, schema |-> sname, patch |-> item.p, excl |-> SetSeq(item.excl),
                           legal |-> Legal(item.p, item.excl, <<>>), tree |-> Body(item.p),
-                          amb |-> \E i \in DOMAIN item.p.v : item.p.v[i].set # None /\ \E e \in item.excl : Len(e) > 1 /\ e[1] = item.p.v[i].k]
+                          amb |-> \E i \in DOMAIN item.p.v : item.p.v[i].set # None /\ \E e \in item.excl : Len(e) > 1 /\ e[1] = item.p.v[i].k,
+                          \* the VALUE given to $set carries the excluded sub-field: on the decoding side that is a document with a value at an
+                          \* excluded path (C07), whatever a client may do about it when encoding
+                          carries |-> \E i \in DOMAIN item.p.v : LET o == item.p.v[i] IN
+                                         o.set # None /\ o.set.t = "rec" /\ \E e \in item.excl : Len(e) = 2 /\ e[1] = o.k /\ \E j \in DOMAIN o.set.v : o.set.v[j].k = e[2]]
     [] kind = "deldoc" -> [kind |-> kind, schema |-> sname, field |-> item.field.n, valid |-> Deletable(item.field)]
     [] kind = "union" -> [kind |-> kind, schema |-> sname, members |-> SetSeq(item.members), valid |-> UnionValid(sname, item.members)]
     [] kind = "enum"  -> [kind |-> kind, schema |-> sname, ordinal |-> item.ordinal, valid |-> EnumOrdinalValid(sname, item.ordinal),
